@@ -67,6 +67,12 @@ def cases_matrix(tier, seed):
                 vals = [base[i]] + ([1, 0] if name not in BASE else [])
             for v in vals:
                 yield dict(kind='matrix', f=name, pos=i, value=v, nparams=max(n_req, i + 1, len(base) if base else 0))
+            if tier == 'thorough':
+                import random
+                import zlib
+                rng = random.Random(zlib.crc32(f'{name}/{i}'.encode()) + seed)
+                for v in rng.sample([-1, 3, 0.25, 12, 100, 0.001, -2.5, 7, 1, 0, 59, 60, 61, 1e6, 255, 0.5], 8):
+                    yield dict(kind='matrix', f=name, pos=i, value=v, extra=True, nparams=max(n_req, i + 1, len(base) if base else 0))
         yield dict(kind='nonnumeric', f=name, pos=pos[0], nparams=max(n_req, pos[0] + 1, len(base) if base else 0))
 
 
@@ -94,6 +100,8 @@ def _outcome(fn, args):
 def _same(a, b):
     if a == b:
         return True
+    if a[0] == b[0] == 'num' and a[1] != a[1] and b[1] != b[1]:
+        return True             # NaN in every spelling (what the function computes is another property's business)
     if a[0] == b[0] == 'num':
         try:
             return abs(float(a[1]) - float(b[1])) <= 1e-9 * max(1.0, abs(float(b[1])))
@@ -117,10 +125,16 @@ def oracle_matrix(c):
     a = list(args)
     a[c['pos']] = float(c['value'])
     ref = _outcome(fn, a)
-    if ref[0] == 'raise':
+    if ref[0] == 'raise' and not c.get('extra'):
         return False, 'a value or an Excel error for the plain float spelling', ref
+    # (the extra values of the thorough tier are arbitrary and may lie outside a function's domain - DATE(0.5, ..), a PV timing of
+    #  255: what the function does there is not C08's business, only that every spelling does the SAME)
+    from xlcalculator.xlfunctions import func_xltypes as t
+    is_date = params[c['pos']].annotation is t.XlDateTime
     bad = {}
     for sp, obj in spellings(c['value']).items():
+        if is_date and sp in ('bool', 'Boolean', 'Blank'):
+            continue        # a parameter declared as a DATE: the statement speaks of parameters declared numeric
         a = list(args)
         a[c['pos']] = obj
         r = _outcome(fn, a)
